@@ -17,6 +17,7 @@ equal share pi^2/N (4 pi/N for directions) below four points.
 """
 from __future__ import annotations
 
+import json
 import math
 import os
 import random
@@ -35,7 +36,8 @@ RULE = ("rotation grids cube4D_N and randomQ_N for every N of the tier list (qui
         "and the prefix of the double-cover volumes of the grid the object reports); MikroVoronoi(d, N) directly incl. the error branches; seed-dependent random double covers G ++ -G pushed through "
         "HalfRotobjVoronoi; synthetic AbstractVoronoi objects (3-D and 4-D, duplicated and np.isclose-near vertices, duplicated / "
         "non-unit centres = exact assignment ties, cells without helper points, all-zero helper point, no helper points); "
-        "synthetic half selections with coordinates inside/at/outside the 1e-8 tolerance of q_in_upper_sphere. "
+        "half selections on a really constructed HalfRotobjVoronoi whose public grid array is replaced by rows with coordinates "
+        "inside/at/outside the 1e-8 tolerance of q_in_upper_sphere (the volumes selected from are the object's real 2N volumes). "
         "A case is non-trivial when at least one convex hull with helper points was built (grids with N >= 4, synthetic objects) "
         "or a selection / equal share with N >= 1 was returned; distinct by (kind, algorithm, N) resp. by the generated arrays")
 
@@ -131,6 +133,8 @@ class Rec:
         for n in self.notes:
             if n not in ctx.notes:
                 ctx.note(n)
+                if n.startswith("stub_incompatible"):
+                    print(f"NOTE: property={ctx.prop} {n}")
         ctx.driver.calls += self.calls
         ctx.driver.lines += self.lines
 
@@ -437,21 +441,59 @@ def ev_history(rec, case):
 # small kinds, evaluated in batches (one or two driver calls per batch)
 # ------------------------------------------------------------------------------------------------------------------
 def make_synth(case):
+    """A synthetic Voronoi object through the package's own extension point: a subclass of AbstractVoronoi that supplies
+    `_create_centers_vertices_regions`; `AbstractVoronoi.__init__` itself runs, so whatever it sets up exists."""
     from molgri.space.voronoi import AbstractVoronoi
 
     class Synth(AbstractVoronoi):
         def __init__(self, c, v, r, add):
-            self._c, self._v, self._r = c, v, r
+            self.verif_harness_cvr = (c, v, r)
             super().__init__(additional_points=add)
 
         def _create_centers_vertices_regions(self):
-            return self._c, self._v, self._r
+            return self.verif_harness_cvr
 
     d = case["dim"]
     c = np.array(case["centers"], dtype=float).reshape(-1, d)
     v = np.array(case["verts"], dtype=float).reshape(-1, d)
     add = None if case["helpers"] is None else np.array(case["helpers"], dtype=float).reshape(-1, d)
     return Synth(c, v, [list(r) for r in case["regions"]], add), c, v, add
+
+
+_HALF_BASE = None
+
+
+def half_base():
+    """A REALLY constructed HalfRotobjVoronoi (fixed random double cover, N = 5) and the 2N = 10 volumes of its full-sphere
+    object.  The half-selection cases copy it and overwrite only the public attribute `my_array`; everything `__init__`
+    created (also private data of a refactored class) is there, and the volumes selected from are real ones."""
+    global _HALF_BASE
+    if _HALF_BASE is None:
+        from molgri.space.voronoi import HalfRotobjVoronoi
+        with core.quiet():
+            base = HalfRotobjVoronoi(random_double_cover(5, 0))
+            allv = [float(x) for x in base.full_voronoi.get_voronoi_volumes(approx=True)]
+        _HALF_BASE = (base, allv)
+    return _HALF_BASE
+
+
+def stub_plumbing_failure(case, e):
+    """(2) of the stub rule: an AttributeError / TypeError that names a private attribute or helper, raised on a SYNTHETIC
+    object, while the same call on a really constructed object works, is a failure of the stub - not of the property."""
+    import re
+    if not isinstance(e, (AttributeError, TypeError)) or not re.search(r"['\"\s._]_[A-Za-z]\w*", str(e)):
+        return False
+    try:
+        base, _ = half_base()
+        with core.quiet():
+            if case["kind"] == "half":
+                base.get_voronoi_volumes()
+            else:
+                base.full_voronoi.get_convex_hulls()
+                base.full_voronoi.get_voronoi_volumes(approx=True)
+        return True
+    except Exception:
+        return False
 
 
 def impl_small(case):
@@ -470,23 +512,19 @@ def impl_small(case):
                     out["vols"] = [float(x) for x in vor.get_voronoi_volumes()]
                 return out
             if k == "half":
-                class Fake:
-                    def __init__(self, a):
-                        self.a = a
-
-                    def get_voronoi_volumes(self, approx=False):
-                        return self.a
-
-                o = object.__new__(HalfRotobjVoronoi)
+                import copy
+                base, allv = half_base()
+                o = copy.copy(base)            # keeps everything __init__ set up; only the public grid array is replaced
                 o.my_array = np.array(case["grid"], dtype=float).reshape(-1, 4)
-                o.full_voronoi = Fake(np.array(case["all"], dtype=float))
-                return {"vols": [float(x) for x in o.get_voronoi_volumes()]}
+                return {"vols": [float(x) for x in o.get_voronoi_volumes()], "all": allv}
             if k == "synth":
                 s, c, v, add = make_synth(case)
                 hulls = s.get_convex_hulls()
                 vols = s.get_voronoi_volumes()
                 return {"points": [np.asarray(h.points) for h in hulls], "vols": [float(x) for x in vols]}
     except Exception as e:
+        if k in ("half", "synth") and stub_plumbing_failure(case, e):
+            return {"stub_incompatible": f"{type(e).__name__}: {e}"}
         return {"err": core.errname(e)}
     raise core.HarnessError(f"unknown case kind {k}")
 
@@ -502,7 +540,7 @@ def ops_small(case):
         return ops
     if k == "half":
         return [{"op": "halfvol", "tol": core.rat(TOL), "grid": rows(np.array(case["grid"], dtype=float).reshape(-1, 4)),
-                 "all": [core.rat(x) for x in case["all"]]}]
+                 "all": [core.rat(x) for x in half_base()[1]]}]
     if k == "synth":
         d = case["dim"]
         return [cells_op(np.array(case["centers"], dtype=float).reshape(-1, d), np.array(case["verts"], dtype=float).reshape(-1, d),
@@ -531,6 +569,11 @@ def ev_small_batch(rec, cases):
         mo = outs[a:b]
         k = case["kind"]
         rec.count += 1
+        if "stub_incompatible" in io:
+            rec.b("stub_incompatible")
+            rec.notes.append(f"stub_incompatible: synthetic {k} object could not be driven ({io['stub_incompatible'][:160]}); the same call "
+                             "on a really constructed object works - case skipped, not a disagreement")
+            continue
         if k == "mikro":
             m = mo[0]
             if "err" in io or "err" in m:
@@ -568,22 +611,23 @@ def ev_small_batch(rec, cases):
             m = mo[0]
             if "err" in io or "err" in m:
                 if io.get("err") != m.get("err"):
-                    rec.corr.append(("half selection outcome", case, io, m))
+                    rec.corr.append(("half selection outcome", case, {kk: vv for kk, vv in io.items() if kk != "all"}, m))
                 rec.b("half_error_" + str(io.get("err")))
             else:
                 mv = [float(core.unrat(v)) for v in m["ok"]]
                 if mv != io["vols"]:
                     rec.corr.append(("half selection", case, io["vols"], mv))
-                rec.nt.append(("half", core.rat(sum(case["all"])), len(case["grid"])))
+                rec.nt.append(("half", json.dumps(case["grid"])))
             # oracle on rows without borderline coordinates
             g = np.array(case["grid"], dtype=float).reshape(-1, 4)
             if np.all((g == 0) | (np.abs(g) > 1e-6)):
                 idx = [i for i, q in enumerate(g) if strict_upper(q)]
-                if idx and max(idx) >= len(case["all"]):
+                allv = half_base()[1]
+                if idx and max(idx) >= len(allv):
                     want = {"err": "IndexError"}
                 else:
-                    want = {"vols": [float(case["all"][i]) for i in idx]}
-                if want != io:
+                    want = {"vols": [float(allv[i]) for i in idx]}
+                if want != {kk: vv for kk, vv in io.items() if kk != "all"}:
                     rec.fail.append(("C15:half_selection", "selected volumes are not those of the rows whose first non-zero coordinate is positive",
                                      case, want, io))
             else:
@@ -701,8 +745,9 @@ def gen_half(rng):
     grid = [[rng.choice(vals) for _ in range(4)] for _ in range(n)]
     if rng.random() < 0.4:      # a double cover
         grid = grid + [[-x for x in q] for q in grid]
-    m = len(grid) if rng.random() < 0.85 else max(0, len(grid) - rng.randint(1, 2))
-    return {"kind": "half", "grid": grid, "all": [round(rng.uniform(0.1, 3), 6) for _ in range(m)]}
+    if rng.random() < 0.15:     # more rows than the 10 volumes of the base object: IndexError when such a row is selected
+        grid = grid + [[rng.choice(vals) for _ in range(4)] for _ in range(rng.randint(1, 4) + max(0, 10 - len(grid)))]
+    return {"kind": "half", "grid": grid}
 
 
 def tier_Ns(ctx):
